@@ -192,9 +192,16 @@ def getWcs (j : Json) : Except String (Wcs SkyQ ℚ) := do
   let loc ← (← rows "loc").mapM fun
     | [lon, lat, s, nc, ns, nd] => pure ((⟨lon, lat⟩ : SkyQ), (⟨s, ⟨nc, ns⟩, nd⟩ : Local ℚ))
     | _ => .error "loc row needs 6 numbers"
+  -- "fs": PixCoord.from_sky of the query positions (absent = same as s2p)
+  let fs ← match fieldD j "fs" .null with
+    | .null => pure s2p
+    | _ => (← rows "fs").mapM fun
+      | [lon, lat, px, py] => pure ((⟨lon, lat⟩ : SkyQ), (⟨px, py⟩ : Pt ℚ))
+      | _ => .error "fs row needs 4 numbers"
   pure ⟨fun q => (s2p.lookup q).getD ⟨sentinel, sentinel⟩,
         fun p => (p2s.lookup p).getD ⟨sentinel, sentinel⟩,
-        fun q => (loc.lookup q).getD ⟨sentinel, ⟨sentinel, sentinel⟩, sentinel⟩⟩
+        fun q => (loc.lookup q).getD ⟨sentinel, ⟨sentinel, sentinel⟩, sentinel⟩,
+        fun q => (fs.lookup q).getD ⟨sentinel, sentinel⟩⟩
 
 def c06Ops : List (String × Handler) := [
   -- pixel region -> sky -> pixel; membership of pixel positions before / after
@@ -203,9 +210,18 @@ def c06Ops : List (String × Handler) := [
     let w ← getWcs (← field j "wcs")
     let pts ← (← fArr j "pts").mapM getPt
     let s := r.toSky w
+    -- "q2s": the sky positions handed over for the query pixels (they may be expressed in a frame of their own, so they
+    -- are kept apart from the region's own pixel -> sky table); absent = pixel_to_world
+    let q2s ← match fieldD (← field j "wcs") "q2s" .null with
+      | .null => pure ([] : List (Pt ℚ × SkyQ))
+      | t => (← jArr t).mapM fun e => do
+        match ← (← jArr e).mapM jRat with
+        | [px, py, lon, lat] => pure ((⟨px, py⟩ : Pt ℚ), (⟨lon, lat⟩ : SkyQ))
+        | _ => .error "q2s row needs 4 numbers"
+    let qSky (p : Pt ℚ) : SkyQ := (q2s.lookup p).getD (w.toSky p)
     pure (Json.mkObj [("start", ofPixR r), ("sky", ofSkyR s), ("back", ofPixR (s.toPixel w)),
                       ("contains_pix", ofBools (pts.map r.contains)),
-                      ("contains_sky", ofBools (pts.map fun p => s.contains w (w.toSky p))),
+                      ("contains_sky", ofBools (pts.map fun p => s.contains w (qSky p))),
                       -- does the sky image answer an ARRAY of positions with one scalar?
                       ("sky_scalar_for_array", Json.bool ((s.containsShape (some [pts.length])).isNone))])),
   -- sky region -> pixel -> sky; membership of sky positions: SkyRegion.contains vs the pixel image
